@@ -145,3 +145,11 @@ Qed.
 (** a kernel message that returns Ok leaves the state unchanged or only appends store writes *)
 Theorem message_effect s o s' res : step s o = Ok (s', res) -> logged s s'.
 Proof. apply step_is_logged. Qed.
+
+Theorem local_action_changes_iff_applied s h r key a s' :
+  act_step s h r key a = Ok s' ->
+  if lact_applies s h r key a then wrote s s' /\ s' <> s else s' = s.
+Proof.
+  intros H. pose proof (local_action_effect s h r key a s' H) as G.
+  destruct (lact_applies s h r key a); [split; [exact G|apply wrote_neq; exact G]|exact G].
+Qed.
